@@ -186,7 +186,7 @@ def Fraction_half():
 
 # functions whose meaning the analyser knows (so a remainder built from them is a definite difference, not an unknown)
 BASE_FNS = {'ln', 'abs', 'len', 'LRc', 'OS', 'CHI', 'at', 'argmin', 'argsort', 'arange', 'exp10', 'max', 'min',
-            'rev', 'argmax', 'sort', 'slice', 'cumsum', 'invperm', 'int', 'floor', 'ceil', 'nanmax', 'nanmin', 'any', 'all', 'power', 'exp'}
+            'rev', 'argmax', 'sort', 'slice', 'cumsum', 'invperm', 'spectral', 'int', 'floor', 'ceil', 'nanmax', 'nanmin', 'any', 'all', 'power', 'exp'}
 
 
 def compare(ctx, rule, instance, where, code, ref_poly, ref_dims=None, facts=None, vocab=None, fns=None, findings=(), detail_ok=''):
@@ -218,7 +218,7 @@ def compare(ctx, rule, instance, where, code, ref_poly, ref_dims=None, facts=Non
                data={'reference': alg.show(ref_poly, 1000)})
         return True
     syms, fnames = alg.leaf_syms(rem)
-    allowed_s = set(vocab or ()) | {'INF'}
+    allowed_s = set(vocab or ()) | {'INF', 'PI'}
     allowed_f = BASE_FNS | set(fns or ())
     foreign = {s for s in syms if s not in allowed_s and not s.startswith('unit:')} | {f for f in fnames if f not in allowed_f}
     if foreign:
